@@ -36,6 +36,18 @@ BAD_LINES = ["NOCOLONHERE", ":novalue-name", ";X=1:v", "DTSTART:garbage", "DTSTA
              "DTEND:20240101T000000Z/20230101T000000Z", "LAST-MODIFIED:20050227T062726Z/20100914T050339"]
 
 
+EXTREMES = ["DURATION:P99999999999D", "DURATION:-P99999999999999999W", "TRIGGER:-PT99999999999999999999S", "TRIGGER:P1000000000D", "SEQUENCE:" + "9" * 400, "PRIORITY:-" + "1" * 5000,
+            "PERCENT-COMPLETE:1e5", "GEO:1e999;0", "GEO:nan;inf", "GEO:" + "9" * 400 + ";1", "TZOFFSETTO:+9999", "TZOFFSETFROM:-235960", "RRULE:FREQ=DAILY;COUNT=" + "9" * 30,
+            "RRULE:FREQ=DAILY;INTERVAL=" + "9" * 30, "RRULE:FREQ=YEARLY;BYDAY=99SU", "RRULE:FREQ=YEARLY;BYMONTH=5L;BYMONTHDAY=" + "1" * 40, "RRULE:FREQ=DAILY;UNTIL=99999999T999999Z",
+            "DTSTART:00000101T000000", "DTSTART:00010101T000000Z", "DTSTART:99991231T235959Z", "DTSTART;TZID=Europe/Berlin:00010101T000000", "DTSTART;TZID=America/New_York:99991231T235959",
+            "DTSTART;TZID=Pacific/Kiritimati:00010101T000000", "DTEND;TZID=Pacific/Apia:99991231T235959", "RDATE;TZID=Europe/Berlin:00010101T000030,99991231T233000",
+            "RDATE;VALUE=PERIOD:99991231T230000Z/PT2H", "RDATE;VALUE=PERIOD;TZID=America/New_York:00010101T000000/PT1H", "FREEBUSY:99991231T230000Z/P1D", "FREEBUSY:00010101T000000Z/-P1D",
+            "EXDATE;TZID=Asia/Tokyo:00010101T000000", "DUE;TZID=Europe/London:99991231T235959", "RECURRENCE-ID;TZID=Australia/Lord_Howe:00010101T001500", "COMPLETED:99991231T235960Z",
+            "DTSTART:20240230T000000", "DTSTART:20240101T240000", "DURATION:P1W1D", "DURATION:PT1H1S", "REPEAT:" + "8" * 100, "X-BIG:" + "z" * 6000,
+            "FREEBUSY:19970308T160000Z/PT3H,garbage", "FREEBUSY:19970308T160000Z/PT3H,19970230T000000Z/PT1H", "FREEBUSY:19970308T160000Z/PT3H,", "EXDATE:20240101T000000,20240230T000000",
+            "RDATE:20240101T000000,x", "CATEGORIES:a,b\\", "ATTENDEE;CN=a,\"b:mailto:x", "RRULE:FREQ=DAILY;BYDAY=MO,XX", "RRULE:FREQ=DAILY;UNTIL=20240101,20240102"]
+
+
 def corpus():
     from .c01 import corpus as c
     return [d for n, d in c()]
@@ -81,6 +93,17 @@ def run(ctx):
                         data = (f"BEGIN:VCALENDAR\r\nBEGIN:{comp}\r\n{prop};TZID={tz}:20240101T120000\r\nEND:{comp}\r\nEND:VCALENDAR\r\n").encode("utf-8", "surrogatepass")
                         ctx.check(("parse", prov, "Calendar", 0, data), "hostile-tzids", enum=True)
                     i += 1
+        for ln in EXTREMES:
+            for comp in ("VEVENT", "VTODO", "VFREEBUSY", "VALARM", "STANDARD"):
+                if ctx.mine(i):
+                    wrap = ("BEGIN:VTIMEZONE\r\nTZID:Verif/X\r\nBEGIN:STANDARD\r\nDTSTART:19700101T000000\r\nTZOFFSETFROM:+0100\r\nTZOFFSETTO:+0100\r\n" + ln + "\r\nEND:STANDARD\r\nEND:VTIMEZONE\r\n"
+                            if comp == "STANDARD" else f"BEGIN:{comp}\r\n{ln}\r\nEND:{comp}\r\n")
+                    ctx.check(("parse", prov, "Calendar", 0, ("BEGIN:VCALENDAR\r\n" + wrap + "END:VCALENDAR\r\n").encode("utf-8")), "extreme-values", enum=True)
+                i += 1
+            for seed in range(2):
+                if ctx.mine(i):
+                    ctx.check(("isolate", prov, seed * 104729 + 7, ln, ("VEVENT", "VTODO")[seed]), "isolation-extremes", enum=True)
+                i += 1
         for ln in BAD_LINES:
             for seed in range(6):
                 if ctx.mine(i):
@@ -214,8 +237,17 @@ def classify_budget(prov, data):
     if prov != "pytz":
         return None
     text = data.decode("utf-8", "replace").upper()
-    if "VTIMEZONE" in text and re.search(r"RRULE[^\r\n]*FREQ=(SECONDLY|MINUTELY|HOURLY)", re.sub(r"\r?\n[ \t]", "", text)):
-        return "pytz-subdaily-rrule-budget"
+    flat = re.sub(r"\r?\n[ \t]", "", text)
+    if "VTIMEZONE" not in flat:
+        return None
+    for rule in re.findall(r"RRULE[^\r\n]*", flat):
+        if re.search(r"FREQ=(SECONDLY|MINUTELY|HOURLY)", rule):
+            return "pytz-subdaily-rrule-budget"
+        # a rule the provider does not cut off at 2038 (it has its own COUNT/UNTIL) with an astronomic number of onsets
+        m = re.search(r"COUNT=(\d+)", rule)
+        u = re.search(r"UNTIL=(\d{4})", rule)
+        if re.search(r"FREQ=(DAILY|WEEKLY)", rule) and ((m and int(m.group(1)) >= 100000) or (u and int(u.group(1)) >= 2500)):
+            return "pytz-subdaily-rrule-budget"
     return None
 
 
@@ -312,6 +344,12 @@ def check_isolate(ctx, case, clock):
         return
     o0, o1 = tree.obs(r0[1]), tree.obs(r1[1])
     if o1 != o0:
+        n0 = sum(len(c.errors) for c in r0[1].walk())
+        n1 = sum(len(c.errors) for c in r1[1].walk())
+        if n1 > n0:
+            # recorded as unparsable AND something of it was kept: the line is neither dropped nor accepted
+            ctx.fail("bad-line-partially-kept", observed=(bad, (tree.diff(o1, o0) or "")[:300]), expected="the line dropped entirely (errors entry) or accepted entirely")
+            return
         ctx.count("isolate:accepted-leniently")       # the line was taken as a property: decides nothing
         return
     e0 = [(id_path, len(c.errors)) for id_path, c in enumerate(r0[1].walk())]
